@@ -12,13 +12,20 @@ pub trait Connection<B> {
         ensures r == self.version_s();
 }
 
+/// `http_body::Body` (bound on the request body type; no method of it is used)
+pub trait HttpBody {}
+
 // ---- error payloads ----
 #[verifier::external_body]
 pub struct BoxError { _p: () }
 
 // ---- hyper::client::conn::{http1, http2}::SendRequest<B> ----
-/// ghost: the request that future `f` will put on the wire, and the transport it will use
-pub uninterp spec fn fut_request<F, B>(f: F) -> Request<B>;
+/// ghost: the request that future `f` will put on the wire (all head fields + body id), and the transport it will use
+pub type Sent = (Version, Method, Uri, HeaderMap, Extensions, int);
+pub open spec fn fields_of<B>(r: Request<B>) -> Sent {
+    (r.version_s(), r.method_s(), r.uri_s(), r.headers_s(), r.ext_s(), r.rest_s())
+}
+pub uninterp spec fn sent<F>(f: F) -> Sent;
 pub uninterp spec fn fut_transport<F>(f: F) -> int;
 
 pub mod hyper {
@@ -49,7 +56,7 @@ pub mod hyper {
                 pub fn is_ready(&self) -> (r: bool) ensures r == self.ready() { unimplemented!() }
                 #[verifier::external_body]
                 pub fn send_request(&mut self, req: Request<B>) -> (f: H1Sending<B>)
-                    ensures final(self).id() == old(self).id(), fut_request::<_, B>(f) == req, fut_transport(f) == old(self).id()
+                    ensures final(self).id() == old(self).id(), final(self).ready() == old(self).ready(), sent(f) == fields_of(req), fut_transport(f) == old(self).id()
                 { unimplemented!() }
             }
         }
@@ -69,7 +76,7 @@ pub mod hyper {
                 pub fn is_ready(&self) -> (r: bool) ensures r == self.ready() { unimplemented!() }
                 #[verifier::external_body]
                 pub fn send_request(&mut self, req: Request<B>) -> (f: H2Sending<B>)
-                    ensures final(self).id() == old(self).id(), fut_request::<_, B>(f) == req, fut_transport(f) == old(self).id()
+                    ensures final(self).id() == old(self).id(), final(self).ready() == old(self).ready(), sent(f) == fields_of(req), fut_transport(f) == old(self).id()
                 { unimplemented!() }
             }
             /// an HTTP/2 handle is cloneable: the clone drives the same transport
@@ -86,14 +93,38 @@ use hyper::body::Incoming;
 #[verifier::external_body]
 #[verifier::reject_recursive_types(T)]
 pub struct BoxFuture<'a, T> { _p: std::marker::PhantomData<&'a T> }
-#[verifier::external_body]
-#[verifier::reject_recursive_types(B)]
-pub struct Response<B> { _p: std::marker::PhantomData<B> }
 /// shadows `std::boxed::Box` inside this unit: only `Box::pin(future)` occurs in the extracted text
 pub struct Box {}
 impl Box {
     #[verifier::external_body]
-    pub fn pin<'a, F, T, B>(f: F) -> (r: BoxFuture<'a, T>)
-        ensures fut_request::<_, B>(r) == fut_request::<_, B>(f), fut_transport(r) == fut_transport(f)
+    pub fn pin<'a, F, T>(f: F) -> (r: BoxFuture<'a, T>)
+        ensures sent(r) == sent(f), fut_transport(r) == fut_transport(f)
     { unimplemented!() }
 }
+
+// ---- tower::Service<R> (only `call` is used by the extracted layers) ----
+pub mod tower {
+    use vstd::prelude::*;
+    pub trait Service<R> {
+        type Response;
+        type Error;
+        type Future;
+        /// ghost: calling this service with request `req` produced the future `f` (opaque for a generic inner
+        /// service; layers state what they hand to their inner service through it)
+        open spec fn passes(&self, req: R, f: Self::Future) -> bool { true }
+        fn call(&mut self, req: R) -> (f: Self::Future)
+            ensures old(self).passes(req, f);
+    }
+}
+
+// ---- service/host.rs `set_host_header` is A-class (closure passed to `Entry::or_insert_with`, `format!`) ----
+/// ghost: `post` is `pre` after `set_host_header` (Host inserted from the URI unless present / URI has no host)
+pub uninterp spec fn host_header_set<B>(pre: Request<B>, post: Request<B>) -> bool;
+#[verifier::external_body]
+pub fn set_host_header<B>(request: &mut Request<B>)
+    ensures
+        host_header_set(*old(request), *final(request)),
+        final(request).version_s() == old(request).version_s() && final(request).method_s() == old(request).method_s()
+            && final(request).uri_s() == old(request).uri_s() && final(request).ext_s() == old(request).ext_s()
+            && final(request).rest_s() == old(request).rest_s(),
+{ unimplemented!() }
